@@ -130,6 +130,7 @@ type gen struct {
 	noBuiltin   bool   // defer of the builtins close/delete/copy/recover is not compiled by this gomacro: do not generate it
 	nf          int    // number of functions of the program (the last one is the entry point: never itself deferred)
 	nextB       int
+	fv          bool // "funcvar" programs: 12% of the acts defer a function VALUE held in a settable place (funcvar.go)
 }
 
 // body of function index fi (calls only to lower indices); inDeferred: we are (transitively) inside a deferred closure
@@ -139,6 +140,24 @@ func (g *gen) body(fi, depth int, closure, inDeferred bool, budget *int) []act {
 	for i := 0; i < n && *budget > 0; i++ {
 		*budget--
 		switch x := g.r.Intn(100); {
+		case g.fv && x < 12:
+			// defer of a function value held in a variable / field / element that is overwritten afterwards (funcvar.go)
+			if depth >= 3 || (inDeferred && g.avoidNested) {
+				continue
+			}
+			k := g.r.Intn(len(fvShapes))
+			g.nextB++
+			a := act{Kind: "deferfv", K: k, V: g.nextB}
+			g.feat["defer-funcvar"]++
+			g.feat["defer-funcvar:"+fvShapes[k]]++
+			if inDeferred {
+				g.feat["defer-inside-deferred"]++
+			}
+			if g.inLoop {
+				g.feat["defer-funcvar-in-loop"]++
+			}
+			a.Body = g.body(fi, depth+1, true, true, budget)
+			out = append(out, a)
 		case x >= 12 && x < 18 && !g.noBuiltin && !(inDeferred && g.avoidNested):
 			// defer of a builtin: close, delete, copy, panic, print/println, recover (builtin.go)
 			t := g.r.Intn(len(biTemplates))
@@ -250,7 +269,7 @@ func (g *gen) body(fi, depth int, closure, inDeferred bool, budget *int) []act {
 func hasDefer(as []act) bool {
 	for _, a := range as {
 		switch a.Kind {
-		case "deferclo", "deferfn", "deferloop", "deferbi":
+		case "deferclo", "deferfn", "deferloop", "deferbi", "deferfv":
 			return true
 		case "loop":
 			if hasDefer(a.Body) {
@@ -275,6 +294,12 @@ func (g *gen) dyn(as []act) int {
 			n += 1 + g.dyn(a.Body)
 		case "deferbi":
 			n += 3
+		case "deferfv":
+			if a.K == fvLoopReuse {
+				n += 3 * (2 + g.dyn(a.Body))
+			} else {
+				n += 2 + g.dyn(a.Body)
+			}
 		case "call", "deferfn":
 			n += 2 + g.fnSize[a.K]
 		default:
@@ -317,6 +342,8 @@ func renderActs(as []act, ind string, sb *strings.Builder) {
 			fmt.Fprintf(sb, "%semit(rec())\n", ind)
 		case "deferbi":
 			biTemplates[a.K].render(a.V, ind, sb)
+		case "deferfv":
+			renderFv(a, ind, sb)
 		}
 	}
 }
@@ -364,6 +391,8 @@ func coqActsList(as []act) []string {
 			parts = append(parts, "ARecoverDeep")
 		case "deferbi":
 			parts = append(parts, biTemplates[a.K].coq(a.V)...)
+		case "deferfv":
+			parts = append(parts, coqFv(a)...)
 		}
 	}
 	return parts
@@ -376,7 +405,7 @@ func hasNested(as []act, inDef bool) bool {
 			if hasNested(a.Body, inDef) {
 				return true
 			}
-		case "deferclo", "deferloop":
+		case "deferclo", "deferloop", "deferfv":
 			if inDef || hasNested(a.Body, true) {
 				return true
 			}
@@ -396,7 +425,7 @@ func (g *gen) installs(as []act) bool {
 			if g.installs(a.Body) {
 				return true
 			}
-		case "deferclo", "deferloop", "deferfn", "deferbi":
+		case "deferclo", "deferloop", "deferfn", "deferbi", "deferfv":
 			return true
 		case "call":
 			if g.fnDefers[a.K] {
@@ -408,7 +437,11 @@ func (g *gen) installs(as []act) bool {
 }
 
 func genProg(r *vh.Rng, avoidNested, noBuiltin bool) *prog {
-	g := &gen{r: r, feat: map[string]int{}, avoidNested: avoidNested, noBuiltin: noBuiltin}
+	return genProgFv(r, avoidNested, noBuiltin, false)
+}
+
+func genProgFv(r *vh.Rng, avoidNested, noBuiltin, fv bool) *prog {
+	g := &gen{r: r, feat: map[string]int{}, avoidNested: avoidNested, noBuiltin: noBuiltin, fv: fv}
 	nf := 2 + r.Intn(3)
 	g.nf = nf
 	p := &prog{Feat: g.feat}
@@ -624,7 +657,9 @@ func main() {
 		"defers in a loop / counted loop `for n := 0; n < K; n++ { acts }` (K = 2..47; the body may hold defer statements: defers inside long-running loops; what follows the loop runs after the activation executed up to several hundred statements, i.e. in the executor's steady loop) / "+
 		"two ADJACENT defer statements (1/3 of the defer closures are followed directly by another one) / "+
 		"defer of a BUILTIN (6% of the acts, also inside counted loops and deferred closures: delete on map / nil map, close on chan / send-only chan, copy of slices / of a string, panic(v), println/print, recover(); "+
-		"arguments are changed after the defer statement and an observer closure deferred just before it emits what the builtin did) + fixed corpus programs of deferred builtins (direct oracle only) / recover() directly / recover() one call deeper (must yield nil); oracle = the same source compiled by go1.23 (event trace, result, escaping panic value). "+
+		"arguments are changed after the defer statement and an observer closure deferred just before it emits what the builtin did) / "+
+		"defer of a FUNCTION VALUE (in 30% additional programs with their own PRNG stream, 12% of their acts; a closure with a random body is stored in a local variable / struct field / slice, array, map element / behind a pointer / a variable re-used by 3 loop iterations, "+
+		"a call through that place is deferred (also with an argument), then the place is overwritten - directly, with nil, or from inside another closure - by a closure whose marker must never be observed) + fixed corpus programs of deferred builtins (direct oracle only) / recover() directly / recover() one call deeper (must yield nil); oracle = the same source compiled by go1.23 (event trace, result, escaping panic value). "+
 		"Non-trivial: at least one panic is raised and at least one deferred call runs; distinct by SHA-256 of the source. "+
 		"While finding C07-1 (a panic raised and recovered inside a deferred call swallows the outer panic) is present, its exact input is replayed first and the generator lets no deferred call (transitively) install defers.")
 	wd := vh.NewWatchdog(rep, 180*time.Second)
@@ -634,6 +669,7 @@ func main() {
 		// 8000 / 260: 31 case files
 		n, perShard = 8000, 260
 	}
+	nFv := n * 3 / 10
 	if a.N > 0 {
 		n = a.N
 	}
@@ -684,6 +720,16 @@ func main() {
 			p.TopName, p.TopIdx = fmt.Sprintf("p%d_f%d", i, len(p.Funcs)-1), len(p.Funcs)-1
 			progs = append(progs, p)
 		}
+		// "funcvar" programs (funcvar.go): the same generator, where 12% of the acts are defers of a function value held
+		// in a place that is overwritten afterwards; own PRNG stream
+		frng := vh.NewRng(a.Seed*7919 + 77)
+		for i := ncorpus + n; i < ncorpus+n+nFv; i++ {
+			p := genProgFv(frng.Fork(), nestedPresent, noBuiltin, true)
+			p.Idx = i
+			p.render(fmt.Sprintf("p%d_", i))
+			p.TopName, p.TopIdx = fmt.Sprintf("p%d_f%d", i, len(p.Funcs)-1), len(p.Funcs)-1
+			progs = append(progs, p)
+		}
 	}
 	want, err := oracle(a, progs, wd)
 	if err != nil {
@@ -724,7 +770,7 @@ func main() {
 		if o.String() != w.String() {
 			fail("events / result / escaping panic differ from compiled Go", o)
 		}
-		ndef := p.Feat["defer-closure"] + p.Feat["defer-func"] + p.Feat["defer-in-loop"] + p.Feat["defer-builtin"]
+		ndef := p.Feat["defer-closure"] + p.Feat["defer-func"] + p.Feat["defer-in-loop"] + p.Feat["defer-builtin"] + p.Feat["defer-funcvar"]
 		rep.Count(p.Src, p.Feat["panic"] > 0 && ndef > 0)
 		for k := range p.Feat {
 			rep.Dist("construct:" + k)
